@@ -6,7 +6,9 @@ from props.common import bounded, known_e2e
 
 LEVEL_TEXT = ("Deductive: value_and_type (classification), evaluate_arithmetic for each of + - * / over ALL pairs of scalar operands against "
               "the statement's conversion rules (independent date-result table in the sidecar, zero divisor, non-numeric text, errors first), "
-              "the & action (text verbatim, blank as nothing, errors first) and the arithmetic actions of the grammar.  Float arithmetic is "
+              "the & action (text verbatim, blank as nothing, errors first), the arithmetic actions of the grammar, and the array layer ExcelArrayOps "
+              "(6 operator methods x arrays of 2 / 3 elements against a scalar, an equal-length and an unequal-length array: element-wise through "
+              "evaluate_arithmetic's contract, #VALUE! on a length mismatch, a new list, the wrapped array untouched).  Float arithmetic is "
               "treated as real arithmetic (flagged).  Bounded: typed pairs incl. arrays through parse, commutativity of + and *.")
 TRUSTED = ['dateutil.parser.parse (text dates; reads the clock for missing fields)', 'machine arithmetic treated as mathematical (real_arith)']
 KNOWN_ARRAY = 'one-element array operand broadcasts instead of #VALUE!'
